@@ -79,47 +79,54 @@ def _region_loop_of(run, fetch_loop):
 
 
 def _already_written_skips(ctx, run, cfg, fetch_loop):
-    """`continue` statements of the fetch loop that skip an alignment because an EARLIER region of the same list returned it:
-    guarded by  any(P(alignment, s, e) for s, e in REGIONS[:i])  with i the index of the current region and P an overlap test.
-    Returns (nodes, verdict, why): verdict True (recognised and read), None (a skip is there but this rule cannot read it),
-    False (no such skip)."""
+    """Branch edges of the fetch loop on which an alignment is passed over because an EARLIER region of the same list returned
+    it: the side of a test  any(P(alignment, s, e) for s, e in REGIONS[:i])  on which it is true, with i the index of the
+    current region and P an overlap test -- whether the code says `if any(..): continue`, `if not any(..): <process>` or
+    filters the fetched alignments with it.  Returns (edges, verdict, why): verdict True (recognised, read, and every write
+    of the loop lies on the other side), None (there is such a test but this rule cannot read it), False (there is none)."""
     rl = _region_loop_of(run, fetch_loop)
     if rl is None:
         return set(), True, "one fetch per chromosome"
     loop, seq, idx = rl
     al = fetch_loop.target.id
-    nodes, verdict, why = set(), False, "no alignment is skipped because an earlier region returned it"
-    for c in [x for x in ast.walk(fetch_loop) if isinstance(x, ast.Continue)]:
-        lp = c
-        while lp is not None and not isinstance(lp, (ast.For, ast.While)):
-            lp = lp.parent
-        if lp is not fetch_loop:
+    edges, verdict, why = set(), False, "no alignment is skipped because an earlier region returned it"
+    inside = {id(x) for x in ast.walk(fetch_loop)}
+    writes = [n for n in cfg.g.nodes if cfg.kind(n) == "stmt" and cfg.ast(n) is not None and id(cfg.ast(n)) in inside and any(isinstance(c, ast.Call) and isinstance(c.func, ast.Attribute) and c.func.attr == "write" and c.args and u(c.args[0]) == al for c in ast.walk(cfg.ast(n)))]
+    for t in cfg.g.nodes:
+        if cfg.kind(t) != "test" or cfg.ast(t) is None or id(cfg.ast(t)) not in inside:
             continue
-        n = cfg.node_of(c)
-        for t, lab in cfg.dominating_edges(n):
-            if cfg.kind(t) != "test" or lab != "true":
-                continue
-            e = cfg.ast(t)
-            if not (isinstance(e, ast.Call) and u(e.func) == "any" and len(e.args) == 1 and isinstance(e.args[0], ast.GeneratorExp) and len(e.args[0].generators) == 1):
-                if al in {x.id for x in ast.walk(e) if isinstance(x, ast.Name)} and seq in u(e):
-                    verdict, why = None, "cannot read the skip condition `%s`" % u(e)[:80]
-                continue
-            g = e.args[0].generators[0]
-            earlier = idx is not None and u(g.iter) == "%s[:%s]" % (seq, idx) and not g.ifs
-            pred = e.args[0].elt
-            okp = None
-            if isinstance(pred, ast.Call):
-                targets, how = ctx.resolve(pred, run)
-                if len(targets) == 1 and len(pred.args) == 3 and u(pred.args[0]) == al and isinstance(g.target, ast.Tuple) and [u(x) for x in pred.args[1:]] == [u(x) for x in g.target.elts]:
-                    okp = _is_overlap_test(targets[0])
-            if earlier and okp:
-                nodes.add(n)
-                verdict, why = True, "an alignment is skipped exactly if one of the regions before the current one overlaps it (%s)" % u(e)[:70]
-            elif earlier and okp is None or not earlier and idx is None:
+        e = cfg.ast(t)
+        neg = False
+        while isinstance(e, ast.UnaryOp) and isinstance(e.op, ast.Not):
+            e, neg = e.operand, not neg
+        if not (isinstance(e, ast.Call) and u(e.func) == "any" and len(e.args) == 1 and isinstance(e.args[0], ast.GeneratorExp) and len(e.args[0].generators) == 1):
+            if al in {x.id for x in ast.walk(e) if isinstance(x, ast.Name)} and seq in u(e) and verdict is False:
                 verdict, why = None, "cannot read the skip condition `%s`" % u(e)[:80]
+            continue
+        g = e.args[0].generators[0]
+        if seq not in u(g.iter):
+            continue
+        earlier = idx is not None and u(g.iter) == "%s[:%s]" % (seq, idx) and not g.ifs
+        pred = e.args[0].elt
+        okp = None
+        if isinstance(pred, ast.Call):
+            targets, how = ctx.resolve(pred, run)
+            if len(targets) == 1 and len(pred.args) == 3 and u(pred.args[0]) == al and isinstance(g.target, ast.Tuple) and [u(x) for x in pred.args[1:]] == [u(x) for x in g.target.elts]:
+                okp = _is_overlap_test(targets[0])
+        if earlier and okp:
+            skip_lab = "false" if neg else "true"
+            atom = (u(e), False)
+            if writes and all(atom in guard_atoms(cfg, w_) for w_ in writes):
+                for s_ in cfg.succ(t, skip_lab):
+                    edges.add((t, s_))
+                verdict, why = True, "an alignment is passed over exactly if one of the regions before the current one overlaps it (%s)" % u(e)[:70]
             else:
-                verdict, why = False, "the skip `%s` is not the test `an earlier region of the list overlaps the alignment`" % u(e)[:80]
-    return nodes, verdict, why
+                verdict, why = False, "the test `%s` does not keep every write of the loop from an alignment an earlier region returned" % u(e)[:70]
+        elif (earlier and okp is None) or (not earlier and idx is None):
+            verdict, why = None, "cannot read the skip condition `%s`" % u(e)[:80]
+        else:
+            verdict, why = False, "the skip `%s` is not the test `an earlier region of the list overlaps the alignment`" % u(e)[:80]
+    return edges, verdict, why
 
 
 def _is_overlap_test(fi):
@@ -207,7 +214,7 @@ def r1(ctx):
             return cfg.kind(n) == "stmt" and a is not None and id(a) in inside and any(isinstance(c.func, ast.Attribute) and c.func.attr == "write" and u(c.func.value) == "bam_writer" and c.args and u(c.args[0]) == al for c in ast.walk(a) if isinstance(c, ast.Call))
 
         dup_skips = set() if tail else _already_written_skips(ctx, run, cfg, loop)[0]  # decided by C10.R6
-        probs = util.check_loop_conservation(cfg, loop, lambda n, f=is_write, d=dup_skips: f(n) or n in d)
+        probs = util.check_loop_conservation(cfg, loop, is_write, sink_edges=dup_skips)
         name = "unmapped-tail" if tail else "region-loop"
         ctx.ob(run.qual, "%s:every-alignment-written" % name, not probs, run.loc(loop), "every fetched alignment reaches bam_writer.write(alignment); the loop has no early exit" if not probs else "an alignment can be %s" % ("skipped" if probs[0][0] == "skip" else "lost by an early exit"), cfg.describe_path(probs[0][1]) if probs else None)
         writes = [n for n in cfg.g.nodes if is_write(n)]
@@ -467,28 +474,61 @@ def r4(ctx):
         coll_names = {util.root_name(choice.args[0])}
     ok = any((c_, True) in ga for c_ in coll_names)
     ctx.ob(fi.qual, "no-scores-no-tag", ok, fi.loc(st.stmt), "a read without any phased variant (empty score collection) is not assigned" if ok else "the assignment is not guarded by the score collection (%s) being non-empty" % sorted(coll_names))
-    ok = ("0 == quality", False) in ga
+    def _tie_excluded(ga_):
+        """`quality != 0` is established -- as such, or as `best != second` where quality is their difference"""
+        if ("0 == quality", False) in ga_:
+            return True
+        qd = util.single_def(fi.node, "quality")
+        if isinstance(qd, ast.BinOp) and isinstance(qd.op, ast.Sub):
+            a_, b_ = u(util.expand_single_defs(fi.node, qd.left)), u(util.expand_single_defs(fi.node, qd.right))
+            exp = set()
+            for t_, p_ in ga_:
+                try:
+                    e_ = ast.parse(t_, mode="eval").body
+                except SyntaxError:
+                    continue
+                exp.add((u(util.expand_single_defs(fi.node, e_)), p_))
+            return ("%s == %s" % (a_, b_), False) in exp or ("%s == %s" % (b_, a_), False) in exp
+        return False
+
+    ok = _tie_excluded(ga)
     ctx.ob(fi.qual, "tie-no-tag", ok, fi.loc(st.stmt), "a read whose best and second-best haplotype tie (quality == 0) is not assigned" if ok else "the assignment is not guarded by quality != 0")
     # the read-cloud table feeds the linked-read fallback of the tag writer: a tied cloud must not be registered there either
     bxa = [c for c in ctx.prog.calls_in(fi.node) if isinstance(c.func, ast.Attribute) and c.func.attr in ("append", "add") and util.root_name(c.func.value) == "BX_tag_to_haplotype"]
     for c in bxa:
         gb = guard_atoms(cfg, cfg.node_containing(c))
-        okb = ("0 == quality", False) in gb
+        okb = _tie_excluded(gb)
         ctx.ob(fi.qual, "tie-no-read-cloud", okb, fi.loc(c), "a tied read cloud is not entered into the barcode table" if okb else "the barcode table receives the cloud before the tie test: every alignment with that barcode is tagged through the linked-read fallback although best and second-best haplotype tie")
     q = util.single_def(fi.node, "quality")
     lf = linear(q) if q is not None else None
     ok = lf == {"first_score": 1, "second_score": -1}
     ctx.ob(fi.qual, "quality-is-best-minus-second", ok, fi.loc(), "quality = first_score - second_score" if ok else "quality is %s" % (u(q) if q is not None else "?"))
-    # descending order and indices 0/1
-    od = util.ordering_of(fi.node, "scores_list")
+    # descending order and indices 0/1: where do best / second score (and the winning haplotype index) come from
+    def _src(name):
+        """(list name, element index, field) a local is read from: `(_, x) = L[k]` or `x = L[k][f]`"""
+        ds = util.assignments_to(fi.node, name)
+        if len(ds) != 1:
+            return None
+        v = ds[0][1]
+        if isinstance(v, tuple) and v[0] == "unpack" and isinstance(v[1], ast.Subscript) and isinstance(v[1].value, ast.Name) and isinstance(v[1].slice, ast.Constant):
+            return (v[1].value.id, v[1].slice.value, v[2])
+        if isinstance(v, ast.Subscript) and isinstance(v.slice, ast.Constant) and isinstance(v.value, ast.Subscript) and isinstance(v.value.value, ast.Name) and isinstance(v.value.slice, ast.Constant):
+            return (v.value.value.id, v.value.slice.value, v.slice.value)
+        return None
+
+    qd_ = util.single_def(fi.node, "quality")
+    best_n, second_n = (u(qd_.left), u(qd_.right)) if isinstance(qd_, ast.BinOp) and isinstance(qd_.op, ast.Sub) and isinstance(qd_.left, ast.Name) and isinstance(qd_.right, ast.Name) else ("first_score", "second_score")
+    s1, s2 = _src(best_n), _src(second_n)
+    lname = s1[0] if s1 else None
+    od = util.ordering_of(fi.node, lname) if lname else None
     ok = od is not None and od[1] is not None and od[1].replace(" ", "") == "_[1]" and od[2] is True
-    firsts = [(s, v) for s, v in util.assignments_to(fi.node, "first_score")]
-    seconds = [(s, v) for s, v in util.assignments_to(fi.node, "second_score")]
-    ok = ok and len(firsts) == 1 and isinstance(firsts[0][1], tuple) and u(firsts[0][1][1]) == "scores_list[0]" and firsts[0][1][2] == 1
-    ok = ok and len(seconds) == 1 and isinstance(seconds[0][1], tuple) and u(seconds[0][1][1]) == "scores_list[1]" and seconds[0][1][2] == 1
+    ok = ok and s1 == (lname, 0, 1) and s2 == (lname, 1, 1)
     ctx.ob(fi.qual, "best-and-second-of-descending-sort", ok, fi.loc(), "scores are ordered descending by score; best = index 0, second = index 1" if ok else "best/second are not indices 0/1 of a descending order by score")
     ok = od is not None and u(od[0]) == "enumerate(scores)"
-    ctx.ob(fi.qual, "haplotype-index-travels-with-score", ok, fi.loc(), "scores_list pairs each score with its haplotype index" if ok else "scores_list is not built from enumerate(scores)")
+    # ... and the haplotype that is assigned is the index that travelled with the best score
+    hts = [u(c.args[0].elts[1]) for c in bxa if c.args and isinstance(c.args[0], ast.Tuple) and len(c.args[0].elts) == 3] + ([u(st.value.elts[0])] if isinstance(st.value, ast.Tuple) and st.value.elts else [])
+    ok = ok and bool(hts) and all(_src(h_) == (lname, 0, 0) for h_ in hts)
+    ctx.ob(fi.qual, "haplotype-index-travels-with-score", ok, fi.loc(), "%s pairs each score with its haplotype index, and the assigned haplotype is the index of the best score" % lname if ok else "the ranked list is not built from enumerate(scores), or the assigned haplotype is not the index that belongs to the best score")
     # the winning phase set: the one with the highest maximum score
     ctx.ob(fi.qual, "phase-set-with-best-score-wins", okc, fi.loc(), "the phase set whose best haplotype score is highest is used (first of a descending order by max score, or max(..., key=max score))" if okc else "phase set choice is not the entry with the highest maximum score")
     # distance tests against the linked-read cutoff are symmetric
